@@ -29,9 +29,10 @@ type Handlers struct {
 	running    atomic.Int32
 	maxRunning atomic.Int32
 
-	mu     sync.Mutex
-	gates  map[string]chan struct{}
-	opened map[string]bool
+	mu      sync.Mutex
+	gates   map[string]chan struct{}
+	opened  map[string]bool
+	allOpen bool
 
 	// OnEnter, if set, runs inside the handler after h.enter is logged and
 	// before the gate (used to issue pushes and callbacks from handlers).
@@ -66,6 +67,10 @@ func (h *Handlers) gate(tag string) chan struct{} {
 	if !ok {
 		g = make(chan struct{})
 		h.gates[tag] = g
+		if h.allOpen {
+			h.opened[tag] = true
+			close(g)
+		}
 	}
 	return g
 }
@@ -84,6 +89,7 @@ func (h *Handlers) Release(tag string) {
 // ReleaseAll opens every gate created so far and makes future gates open.
 func (h *Handlers) ReleaseAll() {
 	h.mu.Lock()
+	h.allOpen = true
 	var tags []string
 	for t := range h.gates {
 		tags = append(tags, t)
